@@ -396,6 +396,11 @@ fn parse_json_event(input: &[u8], output: &mut [u8]) -> Result<(usize, usize), E
         return Err(InnerError::BufferTooSmall(152).into());
     }
 
+    // Zero the padding bytes, so that the binary form does not depend on whatever the
+    // caller's buffer held before (as Event::from_parts does)
+    output[6] = 0;
+    output[7] = 0;
+
     // This tracks where we are currently looking in the input as we scan forward.
     // It is short for INput POSition.
     let mut inpos = 0;
